@@ -544,9 +544,99 @@ class InspectionRunsNothing(Suite):
         return repr(case)
 
 
+CONTAINER_SRC = '''
+from taskchain import Task, Parameter
+from taskchain.data import InMemoryData, JSONData
+
+RUNS = []
+
+class Bag(InMemoryData):        # a container made by run: it has a length, and an empty one is falsy
+    def __init__(self):
+        super().__init__()
+        self.rows = []
+    def __len__(self):
+        return len(self.rows)
+
+class Items(Task):
+    class Meta:
+        parameters = [Parameter('n')]
+    def run(self, n) -> Bag:
+        RUNS.append('items')
+        d = Bag()
+        d.rows = list(range(n))
+        d.set_value(d.rows)
+        return d
+
+class Count(Task):
+    class Meta:
+        input_tasks = [Items]
+    def run(self, items) -> dict:
+        RUNS.append('count')
+        return {'n': len(items)}
+
+class Total(Task):
+    class Meta:
+        input_tasks = [Items, Count]
+    def run(self, items, count) -> dict:
+        RUNS.append('total')
+        return {'sum': sum(items), 'n': count['n']}
+'''
+
+
+class ContainerData(Suite):
+    """a task whose run returns a container data object of its own class (kept in memory, with a length - the empty one is
+    falsy): asked several times on the same object, by two consumers and directly afterwards, it runs once, whether the
+    container is empty or not.  Runtime check only."""
+    name = 'container_data_objects'
+    model = ''
+
+    def gen(self, rng, tier):
+        return [dict(n=n, order=o) for n in (0, 1, 3) for o in (['items', 'items', 'count', 'total', 'items'], ['total', 'count', 'items', 'items'],
+                                                                   ['count', 'items', 'total'])]
+
+    def run_impl(self, case):
+        import sys, types
+        from pathlib import Path
+        from taskchain import Config
+        from .. import pipeline as pl
+        with pl.workspace(dict(classes=[], files={})) as (d, _):
+            name = 'tcv_container'
+            m = types.ModuleType(name)
+            sys.modules[name] = m
+            try:
+                exec(compile(CONTAINER_SRC, name, 'exec'), m.__dict__)
+                ch = Config(Path('data'), name='c', data={'tasks': [f'{name}.*'], 'n': case['n']}).chain()
+                vals = []
+                for t in case['order']:
+                    v = ch[t].value
+                    vals.append(list(v) if t == 'items' else v)
+                return dict(vals=vals, runs=list(m.RUNS))
+            finally:
+                sys.modules.pop(name, None)
+
+    def oracle(self, case, obs):
+        if 'unexpected_exception' in obs:
+            return f'unexpected exception {obs["unexpected_exception"]}: {obs["text"]}'
+        n = case['n']
+        want = {'items': list(range(n)), 'count': {'n': n}, 'total': {'sum': sum(range(n)), 'n': n}}
+        for t, v in zip(case['order'], obs['vals']):
+            if v != want[t]:
+                return f'{case}: {t} yields {v}, expected {want[t]}'
+        for t in ('items', 'count', 'total'):
+            if obs['runs'].count(t) > 1 or (t in case['order'] and obs['runs'].count(t) != 1):
+                return f'{case}: runs {obs["runs"]}; every task asked for runs once on its task object'
+        return None
+
+    def nontrivial(self, case, obs):
+        return True
+
+    def key(self, case):
+        return repr(case)
+
+
 class C04(Prop):
     pid = 'C04'
-    suites = [Plain(), Mixed(), DataKinds(), ReadableLinks(), OnDemandInputs(), NameModeNeighbours(), SharedRegistry(), InspectionRunsNothing(), ContextNeutral()]
+    suites = [Plain(), Mixed(), DataKinds(), ReadableLinks(), OnDemandInputs(), NameModeNeighbours(), SharedRegistry(), InspectionRunsNothing(), ContextNeutral(), ContainerData()]
     assumptions = ['one-shot data classes (JSON, in-memory); resumable ContinuesData is re-run by design until finished()']
 
 
